@@ -590,7 +590,7 @@ func runC16(p *Program, r *Result) {
 func inDominatingLoop(p *Program, fn *ssa.Function, c ssa.CallInstruction, target *ssa.BasicBlock) bool {
 	for _, l := range rangeLoops(fn) {
 		if l.inLoop(c.Block()) && p.feasDominates(l.Exit, target) {
-			return len(l.earlyExits()) == 0
+			return len(p.loopEarlyExits(l)) == 0
 		}
 	}
 	return false
